@@ -59,7 +59,7 @@ func succReturnsOnlyErrors(fn *ssa.Function, b *ssa.BasicBlock, ei int) (bool, [
 // must test that flag and fail.
 func runC17Wildcard(c *Ctx) {
 	p := c.P
-	c.Rule("C17.5", "no path segment can follow a double wildcard: each further-segment iteration tests the seen-'**' flag and errors", 2)
+	c.Rule("C17.5", "no path segment can follow a double wildcard: each further-segment iteration tests the seen-'**' flag and errors", 1)
 	flag := p.MustField("pathParser", "seenDoubleStar")
 	// the segment parser: the function that sets the flag
 	var segParsers []*ssa.Function
@@ -478,7 +478,51 @@ func runC17(c *Ctx) {
 				}
 				return false
 			}
-			found, path := PathQuery{Target: func(in ssa.Instruction) bool { return in == ssa.Instruction(ld) }, Avoid: isReg}.Search(ctor, nil)
+			// registration may be skipped on the edge where the rule list handed to it is known to
+			// be empty (the guard 'no rules: nothing to do' may sit at the call site)
+			var ruleArgs []ssa.Value
+			for _, call := range Calls(ctor) {
+				if isReg(call) {
+					args := call.Common().Args
+					ruleArgs = append(ruleArgs, args[len(args)-1])
+				}
+			}
+			emptyRulesEdge := func(from *ssa.BasicBlock, succ int) bool {
+				iff, ok := from.Instrs[len(from.Instrs)-1].(*ssa.If)
+				if !ok {
+					return true
+				}
+				b, ok := iff.Cond.(*ssa.BinOp)
+				if !ok {
+					return true
+				}
+				lc, ok := b.X.(*ssa.Call)
+				if !ok || CalleeName(lc) != "builtin len" {
+					return true
+				}
+				k, isK := ConstInt(b.Y)
+				if !isK || k != 0 {
+					return true
+				}
+				isRules := false
+				for _, ra := range ruleArgs {
+					if lc.Call.Args[0] == ra || PathOf(lc.Call.Args[0]) == PathOf(ra) {
+						isRules = true
+					}
+				}
+				if !isRules {
+					return true
+				}
+				emptySucc := -1
+				switch b.Op {
+				case token.GTR, token.NEQ:
+					emptySucc = 1
+				case token.EQL, token.LEQ:
+					emptySucc = 0
+				}
+				return succ != emptySucc
+			}
+			found, path := PathQuery{Target: func(in ssa.Instruction) bool { return in == ssa.Instruction(ld) }, Avoid: isReg, EdgeOK: emptyRulesEdge}.Search(ctor, nil)
 			c.Check(!found, "C17.2", FuncName(ctor), "rest-only-after-rules", ld.Pos(),
 				"the REST-only check reads the bindings only after WithRules rules were registered",
 				"the REST-only check can run before the WithRules rules are registered (servable configurations rejected): "+witnessString(p, path))
